@@ -11,6 +11,8 @@ SCHEMA = {
     "Sequence": {"_abs": "ref:AbsoluteSequence?", "_rel": "ref:RelativeSequence?", "_abs_stale": "bool", "_rel_stale": "bool"},
     "Bar": {"sequence": "ref:Sequence", "time_signature_numerator": "int", "time_signature_denominator": "int", "key_signature": "enum:Key?"},
     "MidiTrack": {"name": "int", "messages": "list:ref:MidiMessage"},
+    # ghost class for mido.Message / mido.MetaMessage objects (assumed to be records that store their keyword arguments)
+    "MidoMsg": {"type": "enum:MidoKind", "note": "int?", "velocity": "int?", "time": "int?", "numerator": "int?", "denominator": "int?", "key": "enum:Key?", "control": "int?", "value": "int?", "channel": "int?", "program": "int?"},
     # ghost class for the (channel, [messages]) tuples returned by get_interleaved_message_pairings
     "Pairing": {"g_channel": "int?", "g_msgs": "list:ref:Message", "__tuple__": "g_channel,g_msgs"},
     "MultiTrackLargeVocabularyNotelikeTokeniser": {
